@@ -164,6 +164,18 @@ func coderSchedules(r *Run) {
 		manyTiny = true
 		r.Probe("data-shards>=200")
 	}
+	divisorApart := 0
+	if !big && !manyTiny && kind == 1 && t.Bool(1, 40, "parity-rows-a-divisor-apart") {
+		// reconstruction from two parity rows whose exponents differ by a
+		// divisor of 65535: slice constants coincide in the higher row, the
+		// reconstruction matrix gets zero coefficients (which never happens
+		// with rows 0,1,2,...)
+		divisorApart = []int{21845, 13107, 4369}[t.Draw(3, "divisor")]
+		d = 3 + t.Draw(6, "div-d")
+		p = divisorApart + 1
+		length = []int{32, 34, 48, 64, 100, 256}[t.Draw(6, "div-len")]
+		r.Probe("parity-rows-a-divisor-of-65535-apart")
+	}
 	units := (length + 15) / 16
 	gmax := units + 3
 	if gmax > 260 {
@@ -254,13 +266,31 @@ func coderSchedules(r *Run) {
 
 	// reconstruction under schedule
 	nMissing := t.Draw(min(d, p)+1, "missing-data")
+	if divisorApart > 0 {
+		nMissing = 2
+	}
 	missing := map[int]bool{}
 	for len(missing) < nMissing {
 		missing[t.Draw(d, "which-missing")] = true
 	}
 	parity := cloneShards(want)
+	if divisorApart > 0 {
+		// keep rows 0 and d (and sometimes one more)
+		keep := map[int]bool{0: true, divisorApart: true}
+		if t.Bool(1, 2, "third-row") {
+			keep[1+t.Draw(divisorApart-1, "third")] = true
+		}
+		for i := range parity {
+			if !keep[i] {
+				parity[i] = nil
+			}
+		}
+	}
 	// drop some parity shards but keep enough
 	for i := range parity {
+		if divisorApart > 0 {
+			break
+		}
 		if len(parity)-countNil(parity) > nMissing && t.Bool(1, 3, "drop-parity") {
 			parity[i] = nil
 		}
